@@ -157,8 +157,29 @@ class Graph:
         return None
 
     # --- declarations: list of (line text, [(col, obj)]) per unit ---
-    def unit_lines(self, u, extra_stmts=None):
-        """Lines of top-level declaration u.  extra_stmts: {holder: [stmt]} appended to bodies."""
+    def share(self):
+        """Unused.tla ShareSpec: pairs of objects that may be declared by one spec (`var a, b T`; `a, b T` in a struct)."""
+        out = []
+        for i in self.idx():
+            for j in self.idx():
+                a, b = self.objs[i], self.objs[j]
+                if i < j and a["k"] == b["k"] and a["ty"] == b["ty"] and (a["k"] == "var" or (a["k"] == "field" and a["ow"] == b["ow"])):
+                    out.append([i, j])
+        return out
+
+    def multi_line(self, prefix, objs, suffix):
+        """One spec declaring several names: (text, marks)."""
+        txt, marks = prefix, []
+        for n, x in enumerate(objs):
+            if n:
+                txt += ", "
+            marks.append((len(txt) + 1, x))
+            txt += self.name(x)
+        return (txt + suffix, marks)
+
+    def unit_lines(self, u, extra_stmts=None, style="plain"):
+        """Lines of top-level declaration u.  extra_stmts: {holder: [stmt]} appended to bodies.
+        style "grouped": consecutive fields of the same type share one field spec."""
         o = self.objs[u]
         k = o["k"]
         L = []
@@ -191,8 +212,14 @@ class Graph:
                 txt += self.name(tp) + " any]"
             txt += " struct {"
             L.append((txt, marks))
+            runs = []
             for f in self.of(u, ("field",)):
-                line("\t", f, " " + self.tyexpr(self.objs[f]["ty"]))
+                if style == "grouped" and runs and self.objs[runs[-1][-1]]["ty"] == self.objs[f]["ty"]:
+                    runs[-1].append(f)
+                else:
+                    runs.append([f])
+            for run in runs:
+                L.append(self.multi_line("\t", run, " " + self.tyexpr(self.objs[run[0]]["ty"])))
             for e in self.of(u, ("embed",)):
                 t = self.objs[e]["ty"]
                 pre = "\t" if self.by_value_embed(t) else "\t*"
@@ -242,9 +269,11 @@ class Graph:
         return L
 
 
-def render(g, order=None, extra_stmts=None, extra_decls=None, pkgname="p"):
+def render(g, order=None, extra_stmts=None, extra_decls=None, pkgname="p", style="plain"):
     """Render graph g.  order: list of (unit, file index 0..2); default: units ascending in a.go.
     extra_decls: list of (file index, text) appended after the units of that file.
+    style: "plain" = one name per spec; "grouped" = the objects related by Unused.tla's ShareSpec that are
+    adjacent share one spec (`var a, b T`, `a, b T` inside a struct) - the same declaration graph.
     Returns (files: {name: text}, posmap: {(file, line, col): obj})."""
     if order is None:
         order = [(u, 0) for u in g.units()]
@@ -260,8 +289,19 @@ def render(g, order=None, extra_stmts=None, extra_decls=None, pkgname="p"):
     files, posmap = {}, {}
     for f in sorted(per_file):
         lines = ["package " + pkgname, ""]
+        groups = []
         for u in per_file[f]:
-            for text, marks in g.unit_lines(u, extra_stmts):
+            if (style == "grouped" and groups and g.objs[u]["k"] == "var" and g.objs[groups[-1][-1]]["k"] == "var"
+                    and g.objs[groups[-1][-1]]["ty"] == g.objs[u]["ty"]):
+                groups[-1].append(u)
+            else:
+                groups.append([u])
+        for grp in groups:
+            if len(grp) > 1:
+                ul = [g.multi_line("var ", grp, " " + g.tyexpr(g.objs[grp[0]]["ty"]))]
+            else:
+                ul = g.unit_lines(grp[0], extra_stmts, style)
+            for text, marks in ul:
                 lines.append(text)
                 for col, obj in marks:
                     posmap[(FILES[f], len(lines), col)] = obj
@@ -381,6 +421,7 @@ CONSTANTS
   ThinMod = %(thinmod)d
   Seed = %(seed)d
   NeedRoot = %(root)s
+%(cand)s
 CONSTRAINT Thin
 INVARIANTS Brackets BracketsSane Emit
 CHECK_DEADLOCK FALSE
@@ -391,6 +432,7 @@ def tlc_generate(ctx, name, **kw):
     """Run one generation config; returns (TLCResult, cases)."""
     kw = dict(kw)
     kw["root"] = "TRUE" if kw.get("root") else "FALSE"
+    kw["cand"] = ("  CandOK <- %s" % kw["cand"]) if kw.get("cand") else ""
     cfg = GEN_CFG % kw
     r = vlib.run_tlc(ctx, "MCUnused", "gen_%s.cfg" % name, workers=4, timeout=3000,
                      extra_files={"gen_%s.cfg" % name: cfg})
@@ -430,12 +472,14 @@ def tlc_observe(ctx, records):
 
 def plans(quick):
     big = dict(maxobj=6, maxedge=3, exkinds="MCExBig", root=True)
+    emb = dict(maxobj=9, maxedge=1, exkinds="MCExBig", root=True, kinds="MCKindsEmbed", rels="MCRelsEmbed", cand="MCCandEmbed",
+               thinfrom=99, thinmod=1)
     if quick:
-        return [("rall", dict(big, kinds="MCAllKinds", rels="MCAllRels", thinfrom=3, thinmod=8)),
+        return [("rembed", dict(emb, maxobj=8)), ("rall", dict(big, kinds="MCAllKinds", rels="MCAllRels", thinfrom=3, thinmod=8)),
                 ("rimpl", dict(big, kinds="MCKindsImpl", rels="MCRelsImpl", thinfrom=4, thinmod=8)),
                 ("rfld", dict(big, kinds="MCKindsFld", rels="MCRelsFld", thinfrom=4, thinmod=8)),
                 ("rconv", dict(big, maxedge=2, kinds="MCKindsConv", rels="MCRelsConv", thinfrom=6, thinmod=6))]
-    return [("small", dict(maxobj=3, maxedge=2, exkinds="MCAllKindSet", root=False, kinds="MCAllKinds", rels="MCAllRels", thinfrom=99, thinmod=1)),
+    return [("rembed", emb), ("small", dict(maxobj=3, maxedge=2, exkinds="MCAllKindSet", root=False, kinds="MCAllKinds", rels="MCAllRels", thinfrom=99, thinmod=1)),
             ("rall", dict(big, kinds="MCAllKinds", rels="MCAllRels", thinfrom=3, thinmod=3)),
             ("rimpl", dict(big, kinds="MCKindsImpl", rels="MCRelsImpl", thinfrom=4, thinmod=3)),
             ("rfld", dict(big, kinds="MCKindsFld", rels="MCRelsFld", thinfrom=4, thinmod=3)),
@@ -485,10 +529,73 @@ def features(c):
     for i in range(len(det)):
         for j in range(i + 1, len(det)):
             f.add(("e2",) + tuple(sorted((det[i], det[j]), key=repr)))
+    f |= embed_features(c)
+    # objects that can share one spec (ShareSpec), with which of the two is referenced from a body and whether
+    # their declared type is referenced from anywhere else
+    tgt = set(e["b"] for e in c["edges"]) | set(e["c"] for e in c["edges"] if e["c"])
+    for i, j in (c.get("share") or []):
+        ty = o[i]["ty"]
+        others = [n for n, x in enumerate(c["objs"], 1) if n not in (i, j) and x["ty"] == ty and ty] + [ty for _ in [0] if ty in tgt]
+        f.add(("share", o[i]["k"], i in tgt, j in tgt, ty != 0, bool(others)))
     return f
 
 
-RARE = ("sconv", "assign", "psel", "inst")
+def embed_features(c):
+    """Structure of the embedding relation between structs: cycles (incl. self-embedding), whether a cycle
+    member has an exported / unexported field, whether a struct outside the cycle embeds a member or is embedded
+    by one, and where the body references point (rule 6.5 walks this relation with cycle cuts)."""
+    o = [None] + c["objs"]
+    structs = [i for i in range(1, len(o)) if o[i]["k"] == "struct"]
+    emb = {s: set() for s in structs}
+    for x in c["objs"]:
+        if x["k"] == "embed" and x["ow"] in emb and x["ty"] in emb:
+            emb[x["ow"]].add(x["ty"])
+    if not any(emb.values()):
+        return set()
+
+    def reach(a):
+        seen, todo = set(), list(emb[a])
+        while todo:
+            n = todo.pop()
+            if n not in seen:
+                seen.add(n)
+                todo.extend(emb[n])
+        return seen
+    r = {s: reach(s) for s in structs}
+    cyc = set(s for s in structs if s in r[s])
+    if not cyc:
+        return {("embed", "acyclic", max(len(v) for v in r.values()))}
+    fld = lambda s: tuple(sorted(x["ex"] for x in c["objs"] if x["k"] == "field" and x["ow"] == s))
+    outer_in = any(s not in cyc and emb[s] & cyc for s in structs)
+    outer_out = any(s not in cyc and any(s in emb[m] for m in cyc) for s in structs)
+    tgt = set(e["b"] for e in c["edges"])
+    where = "cycle" if tgt & cyc else ("outside" if tgt & set(structs) else "none")
+    return {("embcyc", len(cyc), tuple(sorted(fld(s) for s in cyc)), outer_in, outer_out, where,
+             tuple(sorted(fld(s) for s in structs if s not in cyc)))}
+
+
+def select_embed(ctx, cases, n):
+    """Graphs of the embedding family with an embedding cycle, one per structural feature (embed_features),
+    those first in which the cycle is entered from more than one place (a struct outside the cycle embeds a
+    member), a member has an exported field and a body reference keeps one of the structs alive: that is where
+    a walk with cycle cuts can give context-dependent answers."""
+    by = {}
+    idx = list(range(len(cases)))
+    ctx.rng.shuffle(idx)
+    for i in idx:
+        if cases[i].get("cfg") != "rembed":
+            continue
+        for f in embed_features(cases[i]):
+            if f[0] == "embcyc":
+                by.setdefault(f, i)
+
+    def score(f):
+        return int(f[3]) + int(any(True in x for x in f[2])) + int(f[5] != "none")
+    fs = sorted(by, key=lambda f: -score(f))   # stable: seeded order inside a score class
+    return [cases[by[f]] for f in fs[:n]]
+
+
+RARE = ("sconv", "assign", "psel", "inst", "share", "embcyc")
 
 
 def select(ctx, cases, n, cover=2, rare_cover=10):
